@@ -307,6 +307,19 @@ Proof.
   - apply capnumlist_cw. exact W.
 Qed.
 
+Lemma fill_ordered_keeps ecma js : forall l m l2 m2, fill_ordered ecma js l m = (l2, m2) ->
+  forall s v, aget s m = Some v -> aget s m2 = Some v.
+Proof.
+  induction js as [|j js IH]; intros l m l2 m2 H s v Hs; cbn [fill_ordered] in H; [inversion H; subst; exact Hs|].
+  destruct l as [|s0 l']; [inversion H; subst; exact Hs|].
+  destruct ecma.
+  - destruct (fill_ordered true js l' m) as [r m'] eqn:E. inversion H; subst. eapply IH; eassumption.
+  - set (s' := match s0 with [] => itoa j | _ => s0 end) in *.
+    destruct (fill_ordered false js l' (if amem s' m then m else aset s' j m)) as [r m'] eqn:E. inversion H; subst.
+    eapply IH; [exact E|]. destruct (amem s' m) eqn:A; [exact Hs|].
+    rewrite aget_aset_other; [exact Hs|]. intros ->. apply amem_false in A. congruence.
+Qed.
+
 Section Table.
 Variable is_word_char : Z -> bool.
 Variable to_lower : Z -> Z.
@@ -329,14 +342,18 @@ Qed.
 Theorem count_captures_table mco o p tb : count_captures mco o p = POk tb ->
   tbl_ok tb /\
   exists stF, prescan_loop (S (length p)) mco (mkCS c_init o [] false) p = POk stF /\
-              incl (c_caps (cs_c stF)) (t_caps tb) /\ cw (cs_c stF).
+              incl (c_caps (cs_c stF)) (t_caps tb) /\ cw (cs_c stF) /\
+              (mco = true -> forall s v, aget s (names_of (cs_c stF)) = Some v ->
+                 exists m, t_capnames tb = Some m /\ aget s m = Some v).
 Proof.
   unfold Parser.count_captures. intros E.
   destruct (prescan_loop (S (length p)) mco (mkCS c_init o [] false) p) as [st| | | |] eqn:EL; cbn [pbind] in E; try discriminate.
   pose proof (prescan_loop_cw mco (S (length p)) (mkCS c_init o [] false) p st cw_init EL) as W.
   pose proof (prescan_loop_ok is_word_char to_lower simple_fold participates cat_in cat_name mco (S (length p)) (mkCS c_init o [] false) p (cinv_init mco) ltac:(lia)) as CI.
   rewrite EL in CI. set (c := cs_c st) in *.
-  assert (GOAL : tbl_ok tb /\ incl (c_caps c) (t_caps tb)); [|destruct GOAL as [G1 G2]; split; [exact G1 | exists st; auto]].
+  assert (GOAL : tbl_ok tb /\ incl (c_caps c) (t_caps tb) /\
+                 (mco = true -> forall s v, aget s (names_of c) = Some v -> exists m, t_capnames tb = Some m /\ aget s m = Some v));
+    [|destruct GOAL as [G1 [G2 G3]]; split; [exact G1 | exists st; auto]].
   destruct mco.
   - (* assignOrderedNameSlots: the key list is 0 .. autocap-1 *)
     destruct CI as [A N M D]. destruct (D eq_refl) as [D1 [D2 [D3 D4]]].
@@ -348,14 +365,19 @@ Proof.
     destruct (c_capnames c) as [m|] eqn:Em.
     + destruct (place_names (c_capnamelist c) None m (repeat [] (Z.to_nat (c_capcount c)))) as [l1| | |]; cbn [bind] in E; try discriminate.
       destruct (fill_ordered (useE o) (zrange (c_capcount c)) l1 m) as [l2 m2] eqn:Ef. inversion E; subst tb.
-      split; [|cbn; apply incl_refl]. apply cw_table; [exact W | symmetry; exact NL|].
+      split; [|split; [cbn; apply incl_refl|]].
+      2:{ intros _ s v Hs. exists m2. split; [reflexivity|]. eapply fill_ordered_keeps; [exact Ef|]. unfold names_of in Hs. rewrite Em in Hs. exact Hs. }
+      apply cw_table; [exact W | symmetry; exact NL|].
       intros _ s k Hk. destruct (fill_ordered_vals _ _ _ _ _ _ Ef s k Hk) as [H1|H1]; [|apply JS; exact H1].
       apply D3. assert (H : aget s (names_of c) = Some k) by (unfold names_of; rewrite Em; exact H1). specialize (D4 _ _ H). lia.
     + destruct (negb (useE o) && (c_capcount c =? c_captop c)).
-      { inversion E; subst tb. split; [|cbn; apply incl_refl]. apply cw_table; [exact W | symmetry; exact NL | auto]. }
+      { inversion E; subst tb. split; [|split; [cbn; apply incl_refl|]]; [apply cw_table; [exact W | symmetry; exact NL | auto]|].
+        intros _ s v Hs. unfold names_of in Hs. rewrite Em in Hs. discriminate. }
       destruct (place_names (c_capnamelist c) None [] (repeat [] (Z.to_nat (c_capcount c)))) as [l1| | |]; cbn [bind] in E; try discriminate.
       destruct (fill_ordered (useE o) (zrange (c_capcount c)) l1 []) as [l2 m2] eqn:Ef. inversion E; subst tb.
-      split; [|cbn; apply incl_refl]. apply cw_table; [exact W | symmetry; exact NL|].
+      split; [|split; [cbn; apply incl_refl|]].
+      2:{ intros _ s v Hs. unfold names_of in Hs. rewrite Em in Hs. discriminate. }
+      apply cw_table; [exact W | symmetry; exact NL|].
       intros _ s k Hk. destruct (fill_ordered_vals _ _ _ _ _ _ Ef s k Hk) as [H1|H1]; [discriminate | apply JS; exact H1].
   - (* assignNameSlots *)
     unfold of_res, assign_default in E.
@@ -374,8 +396,10 @@ Proof.
       - unfold capnumlist_of in En. destruct (c_capcount c1 <? c_captop c1); [|discriminate]. inversion En; subst l. exact Hv.
       - rewrite (cw_dense c1 W1 HT En). exact Hv. }
     assert (FIN : forall names lst, (c_captop c1 < maxint32 -> match names with Some m => forall s k, aget s m = Some k -> In k (c_caps c1) | None => True end) ->
-              tbl_ok (mkT (c_caps c1) (capnumlist_of c1) (c_captop c1) names lst) /\ incl (c_caps c) (t_caps (mkT (c_caps c1) (capnumlist_of c1) (c_captop c1) names lst))).
-    { intros names lst V. split; [apply cw_table; auto | exact I1]. }
+              tbl_ok (mkT (c_caps c1) (capnumlist_of c1) (c_captop c1) names lst) /\ incl (c_caps c) (t_caps (mkT (c_caps c1) (capnumlist_of c1) (c_captop c1) names lst)) /\
+              (false = true -> forall s v, aget s (names_of c) = Some v ->
+                 exists m, t_capnames (mkT (c_caps c1) (capnumlist_of c1) (c_captop c1) names lst) = Some m /\ aget s m = Some v)).
+    { intros names lst V. split; [apply cw_table; auto | split; [exact I1 | intros HH; discriminate]]. }
     destruct (c_capnames c1) as [m1|] eqn:Em1.
     + assert (V1' : forall s v, aget s m1 = Some v -> In v (c_caps c1)).
       { intros s v Hv. apply (V1 s v). unfold names_of. rewrite Em1. exact Hv. }
